@@ -1460,7 +1460,9 @@ class C10(Property):
             if rates is None:
                 break
             v, d = _read(rates[x])
-            if d != _dadd(CONC, TIME, -1) or not _close(v, w, scale * unit):
+            # quantities of float32 dtype are multiplied in float32 by numpy (24-bit mantissa): not a conversion error
+            f32 = any(q.get('mt') == 'float32' for q in list(conf['ks']) + list(conf['c0'].values()))
+            if d != _dadd(CONC, TIME, -1) or not _close(v, w, scale * unit, rtol=1e-5 if f32 else RTOL):
                 return 'ReactionSystem.rates with quantities: rate of %s = %r %s, by hand %r mol m-3 s-1' % (x, v, d, float(w))
         return None
 
